@@ -223,6 +223,22 @@ def check_vec_helper(ctx, cfg, b, vi, rule="C15.D"):
             guard = any(a.prove(fr[0].facts, "Eq", c.ret[1], N_) for c in ln) or (ir[0].ret[3] is not None and a.prove(fr[0].facts, "Eq", ir[0].ret[3], N_))
             ok = same and guard and all(r["val"] == fr[0].ret for r in a.returns)
             form = "Box::from_raw(Box::into_raw(vec.into_boxed_slice()) as *mut GenericArray<T, N>) under len == N (same pointer: %s, guard: %s)" % (same, guard)
+    if not ok:
+        # through std's boxed native array: Box::<[T; U]>::try_from(vec) (std: into_boxed_slice, Ok exactly when len == U), unwrapped, and the
+        # box re-typed in place as Box<GenericArray<T, N>> - the same block, sizes equal by the where-clause Const<U>: IntoArrayLength<ArrayLength = N>
+        tf = [c for c in a.calls if c.fn == "core::convert::TryFrom::try_from" and "TryFrom<alloc::vec::Vec<" in (c.res or "") and "alloc::boxed::Box<[" in (c.res or "") and c.args and c.args[0] == vec]
+        if len(tf) == 1:
+            uw = [c for c in a.calls if c.args and c.args[0] == tf[0].ret and c.fn.split("::")[-1] in ("unwrap", "expect", "unwrap_unchecked")]
+            ir = [c for c in a.calls if c.fn.endswith("::into_raw") and "Box::<T" in c.fn]
+            fr = [c for c in a.calls if c.fn.endswith("::from_raw") and "Box::<T" in c.fn]
+            if len(uw) == 1 and len(ir) == 1 and len(fr) == 1:
+                checked = uw[0].fn.split("::")[-1] != "unwrap_unchecked"
+                same = ir[0].args[0] == uw[0].ret and (fr[0].args[0] == ir[0].ret or (fr[0].args[0][0] == "P" and ir[0].ret[0] == "P" and fr[0].args[0][1] == ir[0].ret[1] and not fr[0].args[0][2].t))
+                st_, dt_ = (ir[0].targs[0] if ir[0].targs else None), (fr[0].targs[0] if fr[0].targs else None)
+                sizes = st_ is not None and dt_ is not None and st_.get("k") == "array" and is_ga(dt_) and prove(("==", a.tenv.size(st_) - a.tenv.size(dt_)), a.poly_facts(fr[0].facts))
+                ok = bool(same and sizes and (checked or eqp) and all(r["val"] == fr[0].ret for r in a.returns))
+                form = "Box::<[T; U]>::try_from(vec).%s() re-typed in place (same block: %s, sizes of [T; U] and GenericArray<T, N> equal under the where-clause: %s)%s" % (
+                    uw[0].fn.split("::")[-1], same, bool(sizes), "" if checked else " with Const<U>: IntoArrayLength<ArrayLength = N>: %s (vec.len() == U is established by the macro expansion, C20.B)" % eqp)
     ctx.ob(rule, key, ok, "%s = %s: %s" % (name, form, ok), at=b["at"], cfg=cfg)
 
 
@@ -307,8 +323,8 @@ def check(ctx):
         c07.check_try(ctx, cfg, c07.K_TRYB, True)
         # C15.N: the fallible conversions refuse a wrong length with Err, never with a panic (fully expanded, tree-shaped bodies)
         from ..rules import reachable_panics
-        for k_ in (K + "try_from_vec", K + "try_from_boxed_slice"):
+        for k_ in (K + "try_from_vec", K + "try_from_boxed_slice") if cfg.endswith("N") else ():
             if ctx.db(cfg).get(k_) is not None:
                 at_ = ctx.analysis_inl(cfg, k_, split=True, force="*", tag="np")
-                pan = reachable_panics(at_)
+                pan = reachable_panics(at_, checks=False)
                 ctx.ob("C15.N", k_, not pan, "no panicking exit in the fallible conversion: %s" % ((not pan) or pan), at=ctx.db(cfg).get(k_)["at"], cfg=cfg)
